@@ -350,7 +350,11 @@ def check(model, rep, tier):
         set(ps) == set(model.func(API, 'to_graph').params())
   gs = [c for c in ast.walk(tc.node) if isinstance(c, ast.Call) and
         core.dotted(c.func) == 'inspect.getsource']
-  rep.check(ok and len(gs) == 1 and gs[0].args and gs[0].args[0] is tg[0],
+  ok = ok and len(gs) == 1 and bool(gs[0].args)
+  if ok:
+    # the argument is the to_graph call itself, directly or through a local
+    ok = gs[0].args[0] is tg[0] or tpl.xnorm(tc, gs[0].args[0], gs[0]) == core.norm(tg[0])
+  rep.check(ok,
             'TREE-TEXT', '%s:shows-the-loaded-module' % tc.site,
             'to_code must convert with exactly the options it was given and '
             'return the source of the function to_graph loaded',
